@@ -44,6 +44,11 @@ type Op struct {
 
 type lawCase struct {
 	Ops []Op `json:"ops"`
+	// Observe: how scopes are read. Counter.Value creates the counter's instance in the scope it
+	// reads, so reading is not neutral: 0 reads every scope directly after every step, 1 reads a gob
+	// copy of every scope after every step (the scopes themselves are left untouched), 2 reads
+	// directly, but only at the end of the history.
+	Observe int `json:"observe"`
 }
 
 type envelope struct {
@@ -66,9 +71,23 @@ func runLaws(c lawCase) (err error) {
 		model[i] = make([]int64, len(counters))
 	}
 	check := func(step int, op Op) error {
+		if c.Observe == 2 && step != len(c.Ops)-1 {
+			return nil
+		}
 		for i := range scopes {
+			read := scopes[i]
+			if c.Observe == 1 {
+				var buf bytes.Buffer
+				if e := gob.NewEncoder(&buf).Encode(scopes[i]); e != nil {
+					return fmt.Errorf("gob encode: %v", e)
+				}
+				read = new(metrics.Scope)
+				if e := gob.NewDecoder(&buf).Decode(read); e != nil {
+					return fmt.Errorf("gob decode: %v", e)
+				}
+			}
 			for ci, ctr := range counters {
-				if got := ctr.Value(scopes[i]); got != model[i][ci] {
+				if got := ctr.Value(read); got != model[i][ci] {
 					return fmt.Errorf("after step %d (%+v): counter %d of scope %d reads %d, model %d", step, op, ci, i, got, model[i][ci])
 				}
 			}
@@ -155,7 +174,7 @@ const tLaws = "TestVerifC20Laws"
 
 func TestVerifC20Laws(t *testing.T) {
 	rec := vt.New("C20", "scope-laws",
-		"rapid: histories of 1..30 operations (Incr, concurrent Incr from 4 goroutines, Merge, Reset(other), Reset(nil), gob round trip of a scope alone and inside a struct) over 4 scopes and 5 registered counters, compared after every step with an integer-vector model; the source of a Reset is retired (nothing is claimed about aliasing); non-trivial = history has a merge/reset/gob step after an increment; distinct by history hash")
+		"rapid: histories of 1..30 operations (Incr, concurrent Incr from 4 goroutines, Merge, Reset(other), Reset(nil), gob round trip of a scope alone and inside a struct) over 4 scopes and 5 registered counters, compared with an integer-vector model; because Counter.Value creates an instance in the scope it reads, each history draws how it is observed: every scope read directly after every step, a gob copy of every scope read after every step (scopes left untouched), or a direct read only at the end; the source of a Reset is retired (nothing is claimed about aliasing); non-trivial = history has a merge/reset/gob step after an increment; distinct by history hash")
 	docs, only := vt.Replays(tLaws)
 	for _, d := range docs {
 		var c lawCase
@@ -175,9 +194,10 @@ func TestVerifC20Laws(t *testing.T) {
 	kinds := []string{"incr", "incr", "incr", "par", "merge", "merge", "reset", "resetnil", "gob", "gobstruct"}
 	rapid.Check(t, func(rt *rapid.T) {
 		var c lawCase
+		c.Observe = rapid.IntRange(0, 2).Draw(rt, "observe")
 		n := rapid.IntRange(1, 30).Draw(rt, "nops")
 		incr, nt := false, false
-		var classes []string
+		classes := []string{fmt.Sprintf("observe:%d", c.Observe)}
 		seen := map[string]bool{}
 		for i := 0; i < n; i++ {
 			op := Op{K: rapid.SampledFrom(kinds).Draw(rt, "k"), A: rapid.IntRange(0, 3).Draw(rt, "a"), B: rapid.IntRange(0, 3).Draw(rt, "b"),
